@@ -71,6 +71,32 @@ def gen_inputs(ctx):
                 other = payload_of(nodes[0], W.VERSIONS[t], kind == "prv")
                 out.append(("ExtParse", {"s": B(pre + pay + other), "form": "stream-offset", "offset": len(pre), "asPrv": kind == "prv",
                                          "net": node["net"]}, ("parse", "stream-offset", t)))
+    # byte-value corners at the END of the 78-byte record (the last key byte): ASCII / Latin-1 blanks, NUL, 0xff -
+    # whatever trimming or text handling a parser applies to its input shows here, in the raw forms
+    WS = [0x09, 0x0a, 0x0b, 0x0c, 0x0d, 0x20, 0x00, 0xff, 0x85, 0xa0, 0x1c, 0x1f]
+    tails = WS if q else list(range(256))
+    pub_by_tail = {}
+    cur, kk = None, 0
+    while len(pub_by_tail) < len(tails) and kk < 20000:
+        cur = R.pt_add(cur, R.G)
+        kk += 1
+        tb = cur[0] & 0xff
+        if tb in tails and tb not in pub_by_tail:
+            pub_by_tail[tb] = kk
+    for tb in tails:
+        kprv = (rng.randrange(1, N >> 8) << 8) | tb
+        if 0 < kprv < N:
+            node = mk_node(rng, kprv, 3, 5, pfps[2], ccs[2], "main")
+            pay = payload_of(node, W.VERSIONS[("prv", "main", "bip44")], True)
+            for form in ("bytes", "stream", "str"):
+                out.append(("ExtParse", {"s": T(R.b58check_enc(pay)) if form == "str" else B(pay), "form": form, "asPrv": True, "net": "main"},
+                            ("parse-key-tail-byte", "prv", form, tb in WS)))
+        if tb in pub_by_tail:
+            node = mk_node(rng, pub_by_tail[tb], 2, 2 ** 31 + 1, pfps[2], ccs[2], "test", prv=False)
+            pay = payload_of(node, W.VERSIONS[("pub", "test", "bip84")], False)
+            for form in ("bytes", "stream", "str"):
+                out.append(("ExtParse", {"s": T(R.b58check_enc(pay)) if form == "str" else B(pay), "form": form, "asPrv": False, "net": "test"},
+                            ("parse-key-tail-byte", "pub", form, tb in WS)))
     # public serialisation of PUBLIC nodes (no scalar anywhere in the process)
     for _ in range(4 if q else 30):
         node = mk_node(rng, rng.choice(ks), rng.choice(depths), rng.choice(idxs), rng.choice(pfps), rng.choice(ccs),
